@@ -111,6 +111,9 @@ func (r *registerRunner) setupFlags(c *cobra.Command) {
 }
 
 func (r registerRunner) execute(cmd *cobra.Command, args []string) error {
+	if r.digits > flags.MaxDigits {
+		return fmt.Errorf("--digits: %d exceeds the maximum of %d", r.digits, flags.MaxDigits)
+	}
 	ctx := cmd.Context()
 	reg := registry.New()
 	valuation, err := r.valuation.Value(reg)
